@@ -403,6 +403,15 @@ type cellStringer struct{ n int }
 
 func (c cellStringer) String() string { return fmt.Sprintf("<%d>", c.n) }
 
+type cellPS struct{ n int }
+
+func (c *cellPS) String() string { return fmt.Sprintf("{ps %d}", c.n) }
+
+type cellErrStr struct{ n int }
+
+func (c cellErrStr) String() string { return fmt.Sprintf("str%d", c.n) }
+func (c cellErrStr) Error() string  { return fmt.Sprintf("err%d", c.n) }
+
 // hugeGrids: arrays of more than 2^25 one-byte cells in very wide, very tall and lop-sided shapes (a
 // strategy that changes with the number of cells - parallel bands, blocked copies - shows only here). One
 // pass each: New2DFilled, a full Fill, a Fill of an inner rectangle, single Sets at the corners, Row,
@@ -696,6 +705,21 @@ func main() {
 	typedGrids("*map[int]int", func(i int) *map[int]int { return &map[int]int{i: i} }, func(a, b *map[int]int) bool { return a == b })
 	typedGrids("*[2]int", func(i int) *[2]int { return &[2]int{i, i} }, func(a, b *[2]int) bool { return a == b })
 	typedGrids("Stringer", func(i int) fmt.Stringer { return cellStringer{i} }, func(a, b fmt.Stringer) bool { return a == b })
+	// cells that fmt prints in a way a hand-rolled rendering gets wrong: nil pointers whose type has a
+	// pointer-receiver String method (fmt prints <nil>), values that are both error and Stringer (fmt uses Error)
+	typedGrids("*cellPS (pointer-receiver String, nil cells)", func(i int) *cellPS {
+		if i%2 == 0 {
+			return nil
+		}
+		return &cellPS{i}
+	}, func(a, b *cellPS) bool { return a == b })
+	typedGrids("cellErrStr (error and Stringer)", func(i int) cellErrStr { return cellErrStr{i} }, func(a, b cellErrStr) bool { return a == b })
+	typedGrids("error", func(i int) error {
+		if i%2 == 0 {
+			return nil
+		}
+		return cellErrStr{i}
+	}, func(a, b error) bool { return a == b })
 	typedGrids("error", func(i int) error {
 		if i%2 == 0 {
 			return nil
